@@ -24,7 +24,7 @@ RULE = ("cases = curated + random-grammar assignments whose output format has >=
         "distinct by (assignment, formats, sizes, inputs, capacity, executor)")
 
 PLAN = {
-    "quick": dict(shards=12, fmt=8, inp=2, rnd=1300, draws=2, jit_every=3, lattice=480),
+    "quick": dict(shards=12, fmt=8, inp=2, rnd=1300, draws=2, jit_every=3, lattice=240),
     "thorough": dict(shards=16, fmt=60, inp=3, rnd=20000, draws=4, jit_every=2, lattice=16000),
 }
 
@@ -146,6 +146,11 @@ def shard(rec, tier, index, n_shards):
             continue
         rec.count("lattice_cases")
         do(case)
+    for case in engine.high_order_cases(rng, 6 if tier == "quick" else 400):
+        if "s" not in case.formats[case.target[1]]:
+            continue
+        rec.count("high_order_cases")
+        do(case)
     # every output format of a few simple shapes (engine.output_exhaustive_cases)
     for case in engine.output_exhaustive_cases(rng, index, n_shards, draws=3 if tier == "quick" else 8):
         if "s" not in case.formats[case.target[1]]:
@@ -153,7 +158,7 @@ def shard(rec, tier, index, n_shards):
         rec.count("every_output_format_cases")
         do(case)
     # bounded-exhaustive small shapes (engine.small_shapes): every tree with <= 5 leaves, all operands compressed
-    for case in engine.small_shape_cases(rng, index, n_shards, draws=4):
+    for case in engine.small_shape_cases(rng, index, n_shards, draws=3 if tier == "quick" else 6):
         rec.count("small_shape_cases")
         do(case)
 
